@@ -141,9 +141,38 @@ def main(chk):
             chk.note('memory report %s in %s not confirmed by valgrind (%r): recorded, not reported as violation' % (kind, site, rep.get('first') or rep.get('what')))
             chk.ob('unconfirmed report %s/%s' % (kind, site), 'unknown', False, 0, detail=rep)
     sim_scenarios(chk, reports_seen=set(k for k in reports))
+    reader_scenarios(chk)
     chk.finish(level='other', explanation=(
         'Memory monitors of the symbolic interpreter on %d explored paths of the refinement/compaction harness (symbolic coordinates, path feasibility by z3). '
         'A path with a report is a violation only if valgrind memcheck confirms an error of the same class on the native g++ build at the solver model.' % npaths))
+
+def reader_scenarios(chk):
+    """(d) the mesh loader after tokenisation: mesh_reader::get_cell_mesh on connectivity lists with every entry symbolic (the harness and the
+    exploration of C17, here for the memory-safety claim only; fewer shapes)"""
+    from checks import c17
+    ir = build.build_ir(['h_reader.cpp'], sources=['src/io/mesh_reader.cpp'])
+    nat = build.build_native(['h_reader.cpp'])
+    shapes = [(12, [2]), (12, [3]), (12, [4]), (6, [5]), (12, [3, 2])]
+    outs = par.pmap(lambda i: c17.run_shape(ir, shapes[i][0], shapes[i][1], 10000, 3000), len(shapes), procs=8)
+    seen = set()
+    for o in outs:
+        chk.paths += o['paths']; chk.queries += o['queries']; chk.solver_s += o['solver_s']; chk.functions |= set(o['functions'])
+        for m_ in o['fail']: chk.fail_closed.append(m_)
+        for (name, status, core, t, detail) in o['obs']:
+            chk.ob('get_cell_mesh/' + name, status, core, t, detail)
+        for rep in o['reports']:
+            if rep['kind'] in ('escape', 'bad-result'): continue
+            site = site_of(rep['where']) if rep['where'] else 'mesh_reader::get_cell_mesh'
+            if (rep['kind'], site) in seen: continue
+            seen.add((rep['kind'], site))
+            iin = c17.concrete_of(rep['model'], o['npos'], o['lens'])
+            vg = valgrind_replay(nat, 'h_c17_cell_mesh', [], iin)
+            vg.update(irsym_report={'kind': rep['kind'], 'msg': rep['msg'], 'where': rep['where']}, iin=iin, lists=c17.split_lists(iin))
+            if vg.get('ran') and 'invalid-access' in vg.get('kinds', []):
+                chk.violation('C10/%s/%s' % (rep['kind'], site), '%s in %s (%s) for connectivity lists %r; valgrind: %s' % (rep['kind'], site, rep['msg'], c17.split_lists(iin), vg.get('first')), vg)
+            else:
+                chk.note('memory report %s in %s not confirmed by valgrind: recorded, not reported as violation' % (rep['kind'], site))
+                chk.ob('unconfirmed report %s/%s' % (rep['kind'], site), 'unknown', False, 0, detail=vg)
 
 def asan_replay(binary, entry, din, iin):
     line = entry + ' %d %d' % (len(din), len(iin)) + ''.join(' ' + float(d).hex() for d in din) + ''.join(' %d' % i for i in iin) + '\n'
